@@ -38,6 +38,19 @@ func (c constReader) Read(p []byte) (int, error) {
 	return len(p), nil
 }
 
+// shortReader returns at most n bytes per Read.
+type shortReader struct {
+	src io.Reader
+	n   int
+}
+
+func (s *shortReader) Read(p []byte) (int, error) {
+	if len(p) > s.n {
+		p = p[:s.n]
+	}
+	return s.src.Read(p)
+}
+
 type cycleReader struct {
 	buf []byte
 	pos int
@@ -332,6 +345,27 @@ func c11BIP340(t *vk.T, i int) {
 			if bytes.Equal(again[:32], sigs[0][:32]) {
 				t.Violation("bip340|nonce-repeats|"+rdName, "identical (key,message) signed twice with %s randomness reuse the nonce", rdName)
 			}
+		}
+	}
+	// a working random source that delivers its bytes in short reads (a conforming io.Reader may do that)
+	for _, chunk := range []int{1, 5} {
+		seenR := map[string]bool{}
+		coll := false
+		for k := 0; k < 300; k++ {
+			s, err := taproot.SecretKey(sk1).Sign(&shortReader{src: rand.Reader, n: chunk}, m1)
+			if err != nil {
+				t.Inconclusive("sign failed: %v", err)
+				break
+			}
+			t.Obs("evaluations", 1)
+			if seenR[string(s[:32])] {
+				coll = true
+			}
+			seenR[string(s[:32])] = true
+		}
+		t.Distinct("bip340|honest-short-reads-%d|equal-inputs-x300", chunk)
+		if coll {
+			t.Violation("bip340|nonce-repeats|honest-short-reads", "identical (key,message) signed 300 times with a working random source that returns %d byte(s) per Read reused a nonce", chunk)
 		}
 	}
 	if i == 0 {
